@@ -17,7 +17,7 @@ CHECKS = {
              "to grow); compiled scanners' token streams are judged by a proved validator. The intermediate products of the generator "
              "are inside the model too: the NFA printed by flex -T with its path semantics, its subset simulation proved exact "
              "(C01_subset_construction_is_exact, C01_dfa_state_accepts_first_nfa_rule), and the same checker applied to that NFA "
-             "(C01_nfa_accepts_the_documented_language) and to the printed DFA (C01_printed_dfa_selects_the_documented_token).",
+             "(C01_nfa_accepts_the_documented_language) and to the printed DFA (C01_printed_dfa_selects_the_documented_token); both passing means the same token over either on every input (C01_dfa_construction_preserves_the_nfa_token).",
         design="DESIGN.md section 6 C01 and 12.2", technique="machine-checked proof (Rocq) + proved checker run on emitted tables + differential correspondence"),
     "C02": dict(
         text="Rocq theorems C02_representation_independent (two table sets passing the lock-step check agree on every input) and "
